@@ -1,6 +1,6 @@
-(** What the restricted insertion [ins] (Spec/XeForeign.v) preserves of the accessors the
-    extractors use: tag name tests, [attribute], [node_text], [lookup_prefix], first-match child
-    and descendant lookups of looked-up names, filtered child lists. *)
+(** What the insertion of foreign content ([fins], Spec/XeForeign.v) preserves of the accessors the
+    extractors use: [is_tag], [attribute], [xml::text] ([elem_text]), [lookup_prefix], first-match
+    child lookups, filtered child lists, the root element. *)
 From Coq Require Import Strings.String.
 From Coq Require Import List Bool NArith Lia.
 From E57 Require Import Base.Prelude Model.Meta Model.XmlTree Model.XmlExtract Spec.XeForeign.
@@ -22,55 +22,31 @@ Proof.
   apply andb_true_iff in H. destruct H as [H1 H2]. apply N.eqb_eq in H1. subst. f_equal. auto.
 Qed.
 
+Lemma find_app {A} (p : A -> bool) l1 l2 :
+  find p (l1 ++ l2) = match find p l1 with Some x => Some x | None => find p l2 end.
+Proof. induction l1 as [|x l IH]; cbn; [reflexivity|]. destruct (p x); auto. Qed.
+
 Scheme ins_gen_mind := Minimality for ins_gen Sort Prop
   with ins_list_mind := Minimality for ins_list Sort Prop.
 Combined Scheme ins_gen_mutind from ins_gen_mind, ins_list_mind.
 
-(** * Monotonicity of the generic relation, and the special cases *)
-Section Mono.
-Variables (P Q : xnode -> Prop) (Hd Hd' : list xnode -> list xnode -> Prop).
-Hypothesis HPQ : forall f, P f -> Q f.
-Hypothesis HHd : forall b ch ch', ins_list P Hd b ch ch' -> Hd ch ch' -> Hd' ch ch'.
+Notation ins := fins (only parsing).
+Notation ins_doc := fins_doc (only parsing).
 
-Lemma ins_gen_mono_both :
-  (forall n n', ins_gen P Hd n n' -> ins_gen Q Hd' n n') /\
-  (forall b l l', ins_list P Hd b l l' -> ins_list Q Hd' b l l').
+(** * Monotonicity: adding only attributes is a special case *)
+Lemma ins_gen_mono_both (P Q : xnode -> bool) :
+  (forall f, P f = true -> Q f = true) ->
+  (forall n n', ins_gen P n n' -> ins_gen Q n n') /\
+  (forall b l l', ins_list P b l l' -> ins_list Q b l l').
 Proof.
-  apply ins_gen_mutind; intros; try (constructor; auto; fail).
-  constructor; eauto.
-Qed.
-End Mono.
-
-Lemma fins_inert_ins n n' : fins_inert n n' -> ins n n'.
-Proof.
-  apply (proj1 (ins_gen_mono_both _ _ _ _ (fun f (H : foreign_elem f = true /\ inert_subtree f = true) => proj2 H)
-                  (fun _ _ _ _ H => H))).
+  intros HPQ. apply ins_gen_mutind; intros; try (constructor; auto; fail); try (apply il_ins; auto).
 Qed.
 
-Lemma fins_inert_doc_ins_doc d d' : fins_inert_doc d d' -> ins_doc d d'.
-Proof.
-  unfold fins_inert_doc, ins_doc, ins_doc_gen. intros H.
-  induction H; constructor; auto. apply fins_inert_ins; assumption.
-Qed.
+Lemma fattr_ins n n' : fattr n n' -> fins n n'.
+Proof. apply (proj1 (ins_gen_mono_both _ _ (fun f (H : false = true) => match Bool.diff_false_true H with end))). Qed.
 
-(** a tree with added namespaced attributes only is a restricted insertion *)
-Lemma fattr_list_head b ch ch' :
-  ins_list (fun _ => False) (fun _ _ => True) b ch ch' -> True -> head_text_kept ch ch'.
-Proof.
-  intros H _. destruct H as [b|b c c' r r' Hc Hr|f r r' _ []]; cbn; auto.
-  destruct c; auto. inversion Hc; subst. exact I.
-Qed.
-
-Lemma fattr_ins n n' : fattr n n' -> ins n n'.
-Proof.
-  apply (proj1 (ins_gen_mono_both _ _ _ _ (fun f (H : False) => match H with end) fattr_list_head)).
-Qed.
-
-Lemma fattr_doc_ins_doc d d' : fattr_doc d d' -> ins_doc d d'.
-Proof.
-  unfold fattr_doc, ins_doc, ins_doc_gen. intros H.
-  induction H; constructor; auto. apply fattr_ins; assumption.
-Qed.
+Lemma fattr_doc_ins_doc d d' : fattr_doc d d' -> fins_doc d d'.
+Proof. apply (proj2 (ins_gen_mono_both _ _ (fun f (H : false = true) => match Bool.diff_false_true H with end))). Qed.
 
 (** * Attributes *)
 Lemma attrs_ext_find (p : xattr -> bool) a a' :
@@ -82,220 +58,171 @@ Proof.
   - rewrite (Hp x Hx). exact IH.
 Qed.
 
-Lemma ins_attribute a n n' : ins n n' -> attribute a n' = attribute a n.
+Lemma ins_attribute a n n' : fins n n' -> attribute a n' = attribute a n.
 Proof.
   intros H. inversion H; subst; try reflexivity. cbn.
   rewrite (attrs_ext_find _ a0 a'); auto.
   intros x Hx. unfold namespaced in Hx. destruct (xn_ns (xa_name x)); [reflexivity|discriminate].
 Qed.
 
-Lemma ins_attr_is a v n n' : ins n n' -> attr_is a v n' = attr_is a v n.
+Lemma ins_attr_is a v n n' : fins n n' -> attr_is a v n' = attr_is a v n.
 Proof. intros H. unfold attr_is. rewrite (ins_attribute a _ _ H). reflexivity. Qed.
 
 (** * Shape *)
-Lemma ins_has_tag_name nm n n' : ins n n' -> has_tag_name nm n' = has_tag_name nm n.
+Lemma ins_is_tag nm n n' : fins n n' -> is_tag nm n' = is_tag nm n.
 Proof. intros H. inversion H; reflexivity. Qed.
 
-Lemma ins_is_element n n' : ins n n' -> is_element n' = is_element n.
+Lemma ins_is_element n n' : fins n n' -> is_element n' = is_element n.
 Proof. intros H. inversion H; reflexivity. Qed.
 
 Lemma ins_children n n' :
-  ins n n' ->
-  ins_list (fun f => inert_subtree f = true) head_text_kept
-           (xstr_eqb (local_name n) PROTOTYPE) (children n) (children n').
+  fins n n' -> ins_list insertable (xstr_eqb (local_name n) PROTOTYPE) (children n) (children n').
 Proof.
-  intros H. inversion H as [| | |nm a a' sc ch ch' Ha Hl Hh]; subst; cbn; [constructor..|exact Hl].
+  intros H. inversion H as [| | |nm a a' sc ch ch' Ha Hl]; subst; cbn; [constructor..|exact Hl].
 Qed.
 
-Lemma ins_node_text n n' : ins n n' -> node_text n' = node_text n.
+(** inserted nodes are never standard elements and never text *)
+Lemma insertable_not_tag nm f : insertable f = true -> is_tag nm f = false.
 Proof.
-  intros H. inversion H as [| | |nm a a' sc ch ch' Ha Hl Hh]; subst; try reflexivity. cbn.
-  destruct Hl as [b|b c c' r r' Hc Hr|f r r' Hf Hi Hr].
-  - reflexivity.
-  - inversion Hc; reflexivity.
-  - destruct f; try discriminate. destruct r as [|[] r]; cbn in Hh; try reflexivity. contradiction.
+  destruct f as [xn a sc ch|t|t|t v]; cbn [insertable]; intros H; try reflexivity; try discriminate.
+  unfold is_tag, std_ns. unfold foreign_elem in H. destruct (xn_ns xn) as [u|]; [|discriminate].
+  apply andb_true_iff in H. destruct H as [H1 H2]. apply negb_true_iff in H1. apply negb_true_iff in H2.
+  change E57_NAMESPACE with E57_NS. unfold is_empty. rewrite H1, H2. apply andb_false_r.
 Qed.
 
-Lemma ins_opt_text d n n' : ins n n' -> opt_text d n' = opt_text d n.
-Proof. intros H. unfold opt_text. rewrite (ins_node_text _ _ H). reflexivity. Qed.
+Lemma insertable_not_text f : insertable f = true -> is_text_node f = false.
+Proof. destruct f; cbn; intros H; try reflexivity. discriminate. Qed.
 
-(** * Inserted subtrees never match a looked-up name *)
-Lemma descendants_elem nm a sc ch :
-  descendants (XElem nm a sc ch) = XElem nm a sc ch :: flat_map descendants ch.
+(** * [xml::text]: the concatenated text and whether there is a text child *)
+Lemma ins_list_texts b ch ch' :
+  ins_list insertable b ch ch' ->
+  cat_texts ch' = cat_texts ch /\ existsb is_text_node ch' = existsb is_text_node ch.
 Proof.
-  reflexivity.
+  intros H. induction H as [b|b c c' r r' Hc Hr [IH1 IH2]|b f r r' Hf Ht Hb Hr [IH1 IH2]|b t1 t2 r r' Hr [IH1 IH2]].
+  - split; reflexivity.
+  - inversion Hc; subst; cbn [cat_texts existsb is_text_node]; rewrite ?IH1, ?IH2; split; reflexivity.
+  - pose proof (insertable_not_text f Hf) as Hn. destruct f; cbn [cat_texts existsb] in *; try discriminate;
+      cbn [is_text_node orb]; split; assumption.
+  - cbn [cat_texts existsb is_text_node orb] in *. rewrite IH1. split; [rewrite app_assoc; reflexivity|reflexivity].
 Qed.
 
-Lemma inert_node_no_match nm n :
-  is_lookup_name nm = true -> inert_node n = true -> has_tag_name nm n = false.
+Lemma ins_elem_text n n' : fins n n' -> elem_text n' = elem_text n.
 Proof.
-  intros Hn Hi. destruct n as [name a sc ch|t|t|t v]; try reflexivity. cbn in *.
-  destruct (xstr_eqb (xn_local name) nm) eqn:E; [|reflexivity].
-  apply xstr_eqb_eq in E. rewrite E, Hn in Hi. discriminate.
+  intros H. unfold elem_text. destruct (ins_list_texts _ _ _ (ins_children _ _ H)) as [E1 E2].
+  rewrite E1, E2. reflexivity.
 Qed.
 
-Lemma inert_subtree_root nm f :
-  is_lookup_name nm = true -> inert_subtree f = true -> has_tag_name nm f = false.
-Proof.
-  intros Hn Hf. unfold inert_subtree in Hf. apply andb_true_iff in Hf. destruct Hf as [_ Hf].
-  destruct f; try reflexivity. rewrite descendants_elem in Hf. cbn [forallb] in Hf.
-  apply andb_true_iff in Hf. destruct Hf as [Hf _]. apply inert_node_no_match; assumption.
-Qed.
-
-Lemma inert_subtree_find_desc nm f :
-  is_lookup_name nm = true -> inert_subtree f = true -> find (has_tag_name nm) (descendants f) = None.
-Proof.
-  intros Hn Hf. unfold inert_subtree in Hf. apply andb_true_iff in Hf. destruct Hf as [_ Hf].
-  induction (descendants f) as [|x l IH]; cbn in *; [reflexivity|].
-  apply andb_true_iff in Hf. destruct Hf as [Hx Hl].
-  rewrite (inert_node_no_match nm x Hn Hx). auto.
-Qed.
+Lemma ins_opt_text d n n' : fins n n' -> opt_text d n' = opt_text d n.
+Proof. intros H. unfold opt_text. rewrite (ins_elem_text _ _ H). reflexivity. Qed.
 
 (** * First-match lookups and filters over children *)
 Section Lists.
 Variable p : xnode -> bool.
-Hypothesis p_ins : forall c c', ins c c' -> p c' = p c.
-Hypothesis p_inert : forall f, is_element f = true -> inert_subtree f = true -> p f = false.
+Hypothesis p_ins : forall c c', fins c c' -> p c' = p c.
+Hypothesis p_inert : forall f, insertable f = true -> p f = false.
+Hypothesis p_text : forall t, p (XText t) = false.
 
 Lemma ins_list_find b ch ch' :
-  ins_list (fun f => inert_subtree f = true) head_text_kept b ch ch' ->
-  orel ins (find p ch) (find p ch').
+  ins_list insertable b ch ch' -> orel fins (find p ch) (find p ch').
 Proof.
-  intros H. induction H as [b|b c c' r r' Hc Hr IH|f r r' Hf Hi Hr IH]; cbn.
+  intros H. induction H as [b|b c c' r r' Hc Hr IH|b f r r' Hf Ht Hb Hr IH|b t1 t2 r r' Hr IH]; cbn [find].
   - constructor.
   - rewrite (p_ins _ _ Hc). destruct (p c); [constructor; assumption|assumption].
-  - rewrite (p_inert f Hf Hi). assumption.
+  - rewrite (p_inert f Hf). assumption.
+  - rewrite !p_text. cbn [find] in IH. rewrite p_text in IH. exact IH.
 Qed.
 
 Lemma ins_list_filter b ch ch' :
-  ins_list (fun f => inert_subtree f = true) head_text_kept b ch ch' ->
-  Forall2 ins (filter p ch) (filter p ch').
+  ins_list insertable b ch ch' -> Forall2 fins (filter p ch) (filter p ch').
 Proof.
-  intros H. induction H as [b|b c c' r r' Hc Hr IH|f r r' Hf Hi Hr IH]; cbn.
+  intros H. induction H as [b|b c c' r r' Hc Hr IH|b f r r' Hf Ht Hb Hr IH|b t1 t2 r r' Hr IH]; cbn [filter].
   - constructor.
   - rewrite (p_ins _ _ Hc). destruct (p c); [constructor; assumption|assumption].
-  - rewrite (p_inert f Hf Hi). assumption.
+  - rewrite (p_inert f Hf). assumption.
+  - rewrite !p_text. cbn [filter] in IH. rewrite p_text in IH. exact IH.
 Qed.
 End Lists.
 
-Lemma ins_list_proto_gen b ch ch' :
-  ins_list (fun f => inert_subtree f = true) head_text_kept b ch ch' -> b = true -> Forall2 ins ch ch'.
+(** where only non-elements are inserted the elements correspond one to one *)
+Lemma ins_list_elements_gen b ch ch' :
+  ins_list insertable b ch ch' -> b = true -> Forall2 fins (filter is_element ch) (filter is_element ch').
 Proof.
-  intros H. induction H as [b|b c c' r r' Hc Hr IH|f r r' Hf Hi Hr IH]; intros Eb; try discriminate.
+  intros H. induction H as [b|b c c' r r' Hc Hr IH|b f r r' Hf Ht Hb Hr IH|b t1 t2 r r' Hr IH]; intros Eb; cbn [filter].
   - constructor.
-  - constructor; auto.
+  - rewrite (ins_is_element _ _ Hc). destruct (is_element c); [constructor; auto|auto].
+  - destruct Hb as [Hb|Hb]; [congruence|]. rewrite Hb. auto.
+  - cbn [is_element]. cbn [filter is_element] in IH. auto.
 Qed.
 
-Lemma ins_list_proto ch ch' :
-  ins_list (fun f => inert_subtree f = true) head_text_kept true ch ch' -> Forall2 ins ch ch'.
-Proof. intros H. eapply ins_list_proto_gen; [exact H|reflexivity]. Qed.
-
-Lemma ins_find_child nm n n' :
-  ins n n' -> is_lookup_name nm = true -> orel ins (find_child nm n) (find_child nm n').
+Lemma ins_find_child nm n n' : fins n n' -> orel fins (find_child nm n) (find_child nm n').
 Proof.
-  intros H Hn. unfold find_child. eapply ins_list_find; [| |apply ins_children; exact H].
-  - intros c c' Hc. apply ins_has_tag_name; assumption.
-  - intros f _ Hf. apply inert_subtree_root; assumption.
+  intros H. unfold find_child. eapply ins_list_find; [| | |apply ins_children; exact H].
+  - intros c c' Hc. apply ins_is_tag; assumption.
+  - intros f Hf. apply insertable_not_tag; assumption.
+  - reflexivity.
 Qed.
 
 Lemma ins_find_child_typed nm ty n n' :
-  ins n n' -> is_lookup_name nm = true ->
-  orel ins (find_child_typed nm ty n) (find_child_typed nm ty n').
+  fins n n' -> orel fins (find_child_typed nm ty n) (find_child_typed nm ty n').
 Proof.
-  intros H Hn. unfold find_child_typed. eapply ins_list_find; [| |apply ins_children; exact H].
-  - intros c c' Hc. rewrite (ins_has_tag_name _ _ _ Hc), (ins_attr_is _ _ _ _ Hc). reflexivity.
-  - intros f _ Hf. rewrite (inert_subtree_root nm f Hn Hf). reflexivity.
+  intros H. unfold find_child_typed. eapply ins_list_find; [| | |apply ins_children; exact H].
+  - intros c c' Hc. rewrite (ins_is_tag _ _ _ Hc), (ins_attr_is _ _ _ _ Hc). reflexivity.
+  - intros f Hf. rewrite (insertable_not_tag nm f Hf). reflexivity.
+  - reflexivity.
 Qed.
 
 Lemma ins_filter_vector_child ty n n' :
-  ins n n' ->
-  Forall2 ins (filter (is_vector_child ty) (children n)) (filter (is_vector_child ty) (children n')).
+  fins n n' ->
+  Forall2 fins (filter (is_vector_child ty) (children n)) (filter (is_vector_child ty) (children n')).
 Proof.
-  intros H. eapply ins_list_filter; [| |apply ins_children; exact H].
-  - intros c c' Hc. unfold is_vector_child.
-    rewrite (ins_has_tag_name _ _ _ Hc), (ins_attr_is _ _ _ _ Hc). reflexivity.
-  - intros f _ Hf. unfold is_vector_child.
-    rewrite (inert_subtree_root (B"vectorChild") f eq_refl Hf). reflexivity.
+  intros H. eapply ins_list_filter; [| | |apply ins_children; exact H].
+  - intros c c' Hc. unfold is_vector_child. rewrite (ins_is_tag _ _ _ Hc), (ins_attr_is _ _ _ _ Hc). reflexivity.
+  - intros f Hf. unfold is_vector_child. rewrite (insertable_not_tag _ f Hf). reflexivity.
+  - reflexivity.
 Qed.
 
 Lemma ins_filter_elem_vector_child ty n n' :
-  ins n n' ->
-  Forall2 ins (filter (fun c => is_element c && is_vector_child ty c) (children n))
-              (filter (fun c => is_element c && is_vector_child ty c) (children n')).
+  fins n n' ->
+  Forall2 fins (filter (fun c => is_element c && is_vector_child ty c) (children n))
+               (filter (fun c => is_element c && is_vector_child ty c) (children n')).
 Proof.
-  intros H. eapply ins_list_filter; [| |apply ins_children; exact H].
+  intros H. eapply ins_list_filter; [| | |apply ins_children; exact H].
   - intros c c' Hc. unfold is_vector_child.
-    rewrite (ins_is_element _ _ Hc), (ins_has_tag_name _ _ _ Hc), (ins_attr_is _ _ _ _ Hc). reflexivity.
-  - intros f _ Hf. unfold is_vector_child.
-    rewrite (inert_subtree_root (B"vectorChild") f eq_refl Hf). rewrite andb_false_r. reflexivity.
+    rewrite (ins_is_element _ _ Hc), (ins_is_tag _ _ _ Hc), (ins_attr_is _ _ _ _ Hc). reflexivity.
+  - intros f Hf. unfold is_vector_child. rewrite (insertable_not_tag _ f Hf). rewrite andb_false_r. reflexivity.
+  - reflexivity.
 Qed.
 
-(** * Descendant lookups *)
-Lemma find_app {A} (p : A -> bool) l1 l2 :
-  find p (l1 ++ l2) = match find p l1 with Some x => Some x | None => find p l2 end.
-Proof. induction l1 as [|x l IH]; cbn; [reflexivity|]. destruct (p x); auto. Qed.
-
-Lemma ins_find_desc_both nm :
-  is_lookup_name nm = true ->
-  (forall n n', ins n n' ->
-     orel ins (find (has_tag_name nm) (descendants n)) (find (has_tag_name nm) (descendants n'))) /\
-  (forall b l l', ins_list (fun f => inert_subtree f = true) head_text_kept b l l' ->
-     orel ins (find (has_tag_name nm) (flat_map descendants l))
-              (find (has_tag_name nm) (flat_map descendants l'))).
-Proof.
-  intros Hn. apply ins_gen_mutind.
-  - intros t. cbn. constructor.
-  - intros t. cbn. constructor.
-  - intros t v. cbn. constructor.
-  - intros name a a' sc ch ch' Ha Hl IH Hh. rewrite !descendants_elem. cbn [find].
-    cbn [has_tag_name]. destruct (xstr_eqb (xn_local name) nm).
-    + constructor. constructor; assumption.
-    + exact IH.
-  - intros b. cbn. constructor.
-  - intros b c c' r r' Hc IHc Hr IHr. cbn [flat_map]. rewrite !find_app.
-    destruct IHc as [|x y Hxy]; [exact IHr|constructor; assumption].
-  - intros f r r' Hf Hi Hr IHr. cbn [flat_map]. rewrite find_app.
-    rewrite (inert_subtree_find_desc nm f Hn Hi). exact IHr.
-Qed.
-
-Lemma ins_find_desc nm n n' :
-  ins n n' -> is_lookup_name nm = true -> orel ins (find_desc nm n) (find_desc nm n').
-Proof. intros H Hn. apply (proj1 (ins_find_desc_both nm Hn)); assumption. Qed.
-
-Lemma ins_find_doc_desc nm d d' :
-  ins_doc d d' -> is_lookup_name nm = true -> orel ins (find_doc_desc nm d) (find_doc_desc nm d').
-Proof.
-  intros H Hn. unfold find_doc_desc, doc_descendants. unfold ins_doc, ins_doc_gen in H.
-  induction H as [|c c' r r' Hc Hr IH]; cbn [flat_map].
-  - constructor.
-  - rewrite !find_app. pose proof (ins_find_desc nm c c' Hc Hn) as Hd. unfold find_desc in Hd.
-    destruct Hd as [|x y Hxy]; [exact IH|constructor; assumption].
-Qed.
-
-(** * Prototype children and [lookup_prefix] *)
-Lemma Forall2_ins_filter_elem l l' :
-  Forall2 ins l l' -> Forall2 ins (filter is_element l) (filter is_element l').
-Proof.
-  intros H. induction H as [|c c' r r' Hcc Hr IH]; cbn; [constructor|].
-  rewrite (ins_is_element _ _ Hcc). destruct (is_element c); [constructor; assumption|assumption].
-Qed.
+(** * Prototype children and the root element *)
+Lemma is_tag_local nm n : is_tag nm n = true -> xstr_eqb (local_name n) nm = true.
+Proof. unfold is_tag. intros H. apply andb_true_iff in H. destruct H as [H _]. destruct n; try discriminate. exact H. Qed.
 
 Lemma ins_prototype_children n n' :
-  ins n n' -> has_tag_name PROTOTYPE n = true ->
-  Forall2 ins (filter is_element (children n)) (filter is_element (children n')).
+  fins n n' -> is_tag PROTOTYPE n = true ->
+  Forall2 fins (filter is_element (children n)) (filter is_element (children n')).
 Proof.
-  intros H Hp. pose proof (ins_children _ _ H) as Hc.
-  destruct n as [nm a sc ch|t|t|t v]; try discriminate. cbn in Hp. cbn [local_name] in Hc. rewrite Hp in Hc.
-  apply ins_list_proto in Hc. apply Forall2_ins_filter_elem. exact Hc.
+  intros H Hp. pose proof (ins_children _ _ H) as Hc. rewrite (is_tag_local _ _ Hp) in Hc.
+  eapply ins_list_elements_gen; [exact Hc|reflexivity].
+Qed.
+
+Lemma ins_doc_root d d' : fins_doc d d' -> orel fins (root_element d) (root_element d').
+Proof.
+  unfold fins_doc, ins_doc_gen, root_element. intros H.
+  remember true as b eqn:Eb.
+  induction H as [b|b c c' r r' Hc Hr IH|b f r r' Hf Ht Hb Hr IH|b t1 t2 r r' Hr IH]; cbn [find].
+  - constructor.
+  - rewrite (ins_is_element _ _ Hc). destruct (is_element c); [constructor; assumption|auto].
+  - destruct Hb as [Hb|Hb]; [congruence|]. rewrite Hb. auto.
+  - cbn [is_element]. cbn [find is_element] in IH. auto.
 Qed.
 
 (** * Combinators of the model *)
 Lemma opt_case_ins {A} o o' (f : xnode -> A) d :
-  orel ins o o' -> (forall c c', ins c c' -> f c' = f c) -> opt_case o' f d = opt_case o f d.
+  orel fins o o' -> (forall c c', fins c c' -> f c' = f c) -> opt_case o' f d = opt_case o f d.
 Proof. intros H Hf. destruct H; cbn; auto. Qed.
 
 Lemma opt_case_ins2 {A} o o' (f f' : xnode -> A) d d' :
-  orel ins o o' -> (forall c c', ins c c' -> f' c' = f c) -> d' = d ->
+  orel fins o o' -> (forall c c', fins c c' -> f' c' = f c) -> d' = d ->
   opt_case o' f' d' = opt_case o f d.
 Proof. intros H Hf Hd. destruct H; cbn; auto. Qed.
 
@@ -304,15 +231,19 @@ Lemma res_bind_cong {A C} (x x' : res A) (k k' : A -> res C) :
 Proof. intros -> Hk. destruct x; cbn; auto. Qed.
 
 Lemma map_res_ins {C} (f f' : xnode -> res C) l l' :
-  Forall2 ins l l' -> (forall c c', ins c c' -> f' c' = f c) -> map_res f' l' = map_res f l.
+  Forall2 fins l l' -> (forall c c', fins c c' -> f' c' = f c) -> map_res f' l' = map_res f l.
 Proof.
   intros H Hf. induction H as [|c c' r r' Hc Hr IH]; cbn; [reflexivity|].
   rewrite (Hf _ _ Hc), IH. reflexivity.
 Qed.
 
 Lemma map_ins {C} (f : xnode -> C) l l' :
-  Forall2 ins l l' -> (forall c c', ins c c' -> f c' = f c) -> map f l' = map f l.
+  Forall2 fins l l' -> (forall c c', fins c c' -> f c' = f c) -> map f l' = map f l.
 Proof.
   intros H Hf. induction H as [|c c' r r' Hc Hr IH]; cbn; [reflexivity|].
   rewrite (Hf _ _ Hc), IH. reflexivity.
 Qed.
+
+Lemma descendants_elem nm a sc ch :
+  descendants (XElem nm a sc ch) = XElem nm a sc ch :: flat_map descendants ch.
+Proof. reflexivity. Qed.
